@@ -491,6 +491,118 @@ func c20Run(t *testing.T, in c20In) (obs c20Obs) {
 	return
 }
 
+// ---------------------------------------------------------------- group "apply"
+//
+// TrafficController's Apply API (ApplyTrafficGateForSpec / ApplyPipelineForSpec /
+// DeleteTrafficGate / DeletePipeline) called directly, the way ingress controllers do: per
+// snapshot the harness - playing the reconciling caller - deletes every object it no longer
+// wants (or whose kind changes) and applies every object it wants, unchanged ones included.
+
+var c20ApplyOnce sync.Once
+var c20ApplySuper *supervisor.Supervisor
+var c20ApplyTC *trafficcontroller.TrafficController
+var c20ApplySeq int
+
+func c20RunApply(t *testing.T, in c20In) (obs c20Obs) {
+	obs.Crash = -1
+	c20ApplyOnce.Do(func() {
+		cls := clustertest.NewMockedCluster()
+		cls.MockedSyncer = func(time.Duration) (cluster.Syncer, error) {
+			sy := clustertest.NewMockedSyncer()
+			sy.MockedSyncPrefix = func(string) (<-chan map[string]string, error) { return make(chan map[string]string), nil }
+			return sy, nil
+		}
+		c20ApplySuper = supervisor.MustNew(&option.Options{AbsHomeDir: t.TempDir()}, cls)
+		c20ApplyTC = c20ApplySuper.MustGetSystemController(trafficcontroller.Kind).Instance().(*trafficcontroller.TrafficController)
+	})
+	super, tc := c20ApplySuper, c20ApplyTC
+	c20ApplySeq++
+	ns := fmt.Sprintf("c20ns%d", c20ApplySeq)
+	c20.mu.Lock()
+	c20.on = true
+	c20.step = 0
+	c20.log = [][]int{}
+	c20.born = map[supervisor.Object][2]int{}
+	c20.panics = map[[3]int]bool{}
+	for _, p := range in.Panics {
+		c20.panics[p] = true
+	}
+	c20.mu.Unlock()
+	live := map[int]int{} // the caller's own bookkeeping: name -> kind it has applied
+	for ti, step := range in.Steps {
+		c20.mu.Lock()
+		c20.step = ti
+		c20.mu.Unlock()
+		want := map[int][3]int{}
+		for _, e := range step {
+			want[e[0]] = e
+		}
+		crashed := false
+		func() {
+			defer func() {
+				if r := recover(); r != nil {
+					crashed = true
+				}
+			}()
+			for n := 0; n < in.Names; n++ {
+				name := fmt.Sprintf("n%d", n)
+				k, isLive := live[n]
+				w, wanted := want[n]
+				if isLive && (!wanted || w[1] != k) {
+					if k == 9 {
+						tc.DeletePipeline(ns, name)
+					} else {
+						tc.DeleteTrafficGate(ns, name)
+					}
+					delete(live, n)
+				}
+				if wanted {
+					spec, err := super.NewSpec(c20Yaml(name, w[1], w[2]))
+					if err != nil {
+						panic(err)
+					}
+					if w[1] == 9 {
+						_, err = tc.ApplyPipelineForSpec(ns, spec)
+					} else {
+						_, err = tc.ApplyTrafficGateForSpec(ns, spec)
+					}
+					if err != nil {
+						panic(err)
+					}
+					live[n] = w[1]
+				}
+			}
+		}()
+		if crashed {
+			obs.Crash = ti
+			break
+		}
+		o := c20StepObs{Sup: [][]int{}}
+		rows := [][]int{}
+		for _, e := range tc.ListTrafficGates(ns) {
+			if r := c20EntityRow(ti, e); r != nil {
+				rows = append(rows, r)
+			}
+		}
+		o.Gate = c20SortRows(rows)
+		rows = [][]int{}
+		for _, e := range tc.ListPipelines(ns) {
+			if r := c20EntityRow(ti, e); r != nil {
+				rows = append(rows, r)
+			}
+		}
+		o.Pipe = c20SortRows(rows)
+		obs.Steps = append(obs.Steps, o)
+	}
+	c20.mu.Lock()
+	c20.on = false
+	obs.Log = c20.log
+	c20.log = nil
+	c20.mu.Unlock()
+	tc.Clean(ns)
+	return
+}
+
 // ---------------------------------------------------------------- generator
 
 func c20PickKind(r *vfRand) int {
@@ -517,7 +629,9 @@ func c20OtherKindSameCat(r *vfRand, k int) int {
 	return pool[r.Intn(len(pool))]
 }
 
-func c20Gen(r *vfRand, adv bool, tier string) c20In {
+func c20Gen(r *vfRand, adv bool, tier string) c20In { return c20GenK(r, adv, tier, false) }
+
+func c20GenK(r *vfRand, adv bool, tier string, trafficOnly bool) c20In {
 	in := c20In{Kinds: c20KindTable(), Mode: 1}
 	in.Names = r.Range(1, 4)
 	nsteps := r.Range(2, 8)
@@ -529,7 +643,7 @@ func c20Gen(r *vfRand, adv bool, tier string) c20In {
 		kindChange = 5
 	}
 	pick := c20PickKind
-	if r.Chance(2, 5) {
+	if trafficOnly || r.Chance(2, 5) {
 		pick = c20PickTraffic
 		if in.Names < 3 {
 			in.Names = r.Range(3, 4)
@@ -622,6 +736,14 @@ func TestVerifC20TC(t *testing.T) {
 		out.Emit(vfCase{ID: sc.ID, Src: sc.Src, Grp: "tc", In: in, Obs: c20Run(t, in)})
 		out.w.Flush() // a panic escaping in a goroutine kills the binary: keep what was observed so far
 	}
+	for _, sc := range vfStored("apply") {
+		var in c20In
+		if err := json.Unmarshal(sc.In, &in); err != nil {
+			t.Fatalf("c20: stored case %s: %v", sc.ID, err)
+		}
+		out.Emit(vfCase{ID: sc.ID, Src: sc.Src, Grp: "apply", In: in, Obs: c20RunApply(t, in)})
+		out.w.Flush()
+	}
 	if vfReplayOnly() {
 		return
 	}
@@ -633,6 +755,12 @@ func TestVerifC20TC(t *testing.T) {
 	root := vfNewRand(vfSeed() + 7777)
 	n := vfN(100)
 	for i := 0; i < n; i++ {
+		if i%3 == 2 { // the Apply API called directly
+			ain := c20GenK(root.Fork(i), adv, vfTier(), true)
+			out.Emit(vfCase{ID: fmt.Sprintf("apply-%d-%d", vfSeed(), i), Src: src, Grp: "apply", In: ain, Obs: c20RunApply(t, ain)})
+			out.w.Flush()
+			continue
+		}
 		in := c20Gen(root.Fork(i), adv, vfTier())
 		out.Emit(vfCase{ID: fmt.Sprintf("tc-%d-%d", vfSeed(), i), Src: src, Grp: "tc", In: in, Obs: c20Run(t, in)})
 		out.w.Flush() // a panic escaping in a goroutine kills the binary: keep what was observed so far
